@@ -15,7 +15,7 @@ import (
 func init() {
 	register(&Check{
 		ID: "C04", Level: "exploration", QuickSecs: 170, ThoroughSecs: 1500,
-		Rule:        "(i) naming: every pair of rule names from {A, A1, A1_, a, _x, Été, B2} x block positions 1..12 in the first rule (a chain of trivial items before the block) x block position 1 or 2 in the second x block kinds; (ii) scoping: every placement of <= 2 labels and the code blocks of all four kinds over the scope-introducing constructs (rule, choice alternative, label, & !, ? * +, recovery, nested sequence) up to N nodes (quick 4, thorough 5), blocks listing exactly the labels of their scope (reference scope rule); leaf rules with labels inlined by -optimize-grammar; (iii) classes: one grammar naming EVERY Unicode class the front-end accepts plus the single-letter classes. For every emitted text (hook build mode, all of them): each block has exactly one on-method and one trampoline, no duplicate method names, no duplicate parameters, parameters = stack keys = labels of the block's scope. For a systematic batch (and every family (i)/(iii) member) x flag combinations of -optimize-parser -optimize-grammar -optimize-basic-latin -support-left-recursion -nolint -cache and -receiver-name {c,p,cur}: the real main() output is written to a scratch module, then ONE gofmt -l, go build ./..., go vet ./... and one binary importing every package whose main calls Parse once per package (package initialisation must not panic; every class resolves). Non-trivial = grammars with >= 2 blocks or >= 1 label in a nested scope.",
+		Rule:        "(i) naming: every pair of rule names from {A, A1, A1_, a, _x, Été, B2} x block positions 1..12 in the first rule (a chain of trivial items before the block) x block position 1 or 2 in the second x block kinds; (ii) scoping: every placement of <= 2 labels and the code blocks of all four kinds over the scope-introducing constructs (rule, choice alternative, label, & !, ? * +, recovery, nested sequence) up to N nodes (quick 4, thorough 5), blocks listing exactly the labels of their scope (reference scope rule); leaf rules with labels inlined by -optimize-grammar; a leaf rule holding blocks of every kind inlined into two or three recursive rules (every copy needs its own methods); (iii) classes: one grammar naming EVERY Unicode class the front-end accepts plus the single-letter classes. For every emitted text (hook build mode, all of them): each block has exactly one on-method and one trampoline, no duplicate method names, no duplicate parameters, parameters = stack keys = labels of the block's scope. For a systematic batch (and every family (i)/(iii) member) x flag combinations of -optimize-parser -optimize-grammar -optimize-basic-latin -support-left-recursion -nolint -cache and -receiver-name {c,p,cur}: the real main() output is written to a scratch module, then ONE gofmt -l, go build ./..., go vet ./... and one binary importing every package whose main calls Parse once per package (package initialisation must not panic; every class resolves). Non-trivial = grammars with >= 2 blocks or >= 1 label in a nested scope.",
 		Assumptions: []string{"the Go toolchain (gofmt, go build, go vet) is the judge of 'compiles and vets'", "blocks are well-typed by construction"},
 		Run:         runC04,
 		Post:        postC04,
@@ -178,6 +178,45 @@ func runC04(c *ShardCtx) {
 						structural(g, core.Gen{OptGrammar: true}, "scoping+inlining", li%7 == 1)
 					}
 				}
+			}
+		}
+	}
+	// (ii-b) a leaf rule with blocks of every kind inlined by -optimize-grammar into SEVERAL rules
+	// that survive the optimization (recursive ones): every copy needs its own methods
+	{
+		lit := peg.Lit
+		leafBodies := []func() *peg.Expr{
+			func() *peg.Expr { return peg.Seq(peg.AndCode(0), lit("x")) }, func() *peg.Expr { return peg.Seq(peg.NotCode(0), lit("x")) },
+			func() *peg.Expr { return peg.Seq(peg.StateCode(0), lit("x")) }, func() *peg.Expr { return peg.Action(0, peg.Label("x", lit("x"))) },
+			func() *peg.Expr {
+				return peg.Action(0, peg.Seq(peg.AndCode(0), peg.Label("x", lit("x")), peg.StateCode(0), peg.NotCode(0)))
+			},
+		}
+		for li, lb := range leafBodies {
+			for shape := 0; shape < 3; shape++ {
+				idx++
+				if !c.Mine(idx) {
+					continue
+				}
+				rules := []*peg.Rule{
+					{Name: "S", Expr: peg.Action(0, peg.Seq(peg.Label("v", peg.Ref("L")), peg.Label("t", peg.Ref("T"))))},
+					{Name: "T", Expr: peg.Choice(peg.Seq(peg.Ref("L"), lit("a"), peg.Ref("T")), lit("b"))},
+				}
+				switch shape {
+				case 1:
+					rules = append(rules, &peg.Rule{Name: "U", Expr: peg.Choice(peg.Seq(lit("u"), peg.Ref("L"), peg.Ref("U")), peg.Ref("L"))})
+					rules[0].Expr = peg.Action(0, peg.Seq(peg.Label("v", peg.Ref("L")), peg.Label("t", peg.Ref("T")), peg.Label("u", peg.Opt(peg.Ref("U")))))
+				case 2:
+					rules[1].Expr = peg.Choice(peg.Seq(peg.Ref("L"), peg.Ref("L"), peg.Ref("T")), lit("b"))
+				}
+				rules = append(rules, &peg.Rule{Name: "L", Expr: lb()})
+				g := &peg.Grammar{Rules: rules}
+				peg.Renumber(g, 1)
+				peg.AssignArgs(g)
+				for _, gen := range []core.Gen{{OptGrammar: true}, {OptGrammar: true, Optimize: true}} {
+					structural(g, gen, "inlining into several rules", false)
+				}
+				addBatch(strings.Replace(peg.Print(g, nil), "package vgram", "package PKG", 1), core.Gen{OptGrammar: true}.Argv(), "inlining into several rules", li != 3 || shape == 0)
 			}
 		}
 	}
